@@ -8,10 +8,10 @@ OUT="$1"; PFX="$2"; shift 2
 cd /verif
 mkdir -p variants/keep-ext
 for p in "$@"; do
-  for x in A B C; do
+  for x in ${LETTERS:-A B C}; do
     d="$OUT/$p/$x"
     [ -f "$d/patch.diff" ] || { echo "== $p/$x: no patch"; continue; }
-    id="$p-$PFX$(echo $x | tr ABC abc)"
+    id="$p-$PFX$(echo $x | tr ABCK abck)"
     echo "== $p/$x -> $id"
     S="$(mktemp -d /var/tmp/refac-XXXXXX)"
     rsync -a --exclude .git /repo/ "$S/"
@@ -24,6 +24,6 @@ for p in "$@"; do
     echo "$out"
     case "$base" in *"158/158"*) ;; *) echo "SKIP (tests do not pass)"; continue;; esac
     { echo "# variant: $id (keep, written by an independent sub-agent as a behaviour-preserving refactoring)"; sed 's/^/# note: /' "$d/NOTES.md" 2>/dev/null | head -40; cat "$d/patch.diff"; } > "/tmp/$id.patch"
-    case "$out" in *"RESULT: silent"*) mv "/tmp/$id.patch" "variants/keep-ext/$id.patch"; echo "STORED keep-ext/$id.patch";; *) mkdir -p /tmp/refac-triage; mv "/tmp/$id.patch" "/tmp/refac-triage/$id.patch"; echo "TRIAGE /tmp/refac-triage/$id.patch";; esac
+    case "$out" in *"RESULT: silent"*) mv "/tmp/$id.patch" "variants/keep-ext/$id.patch"; echo "STORED keep-ext/$id.patch";; *) mv "/tmp/$id.patch" "variants/pending/$id.patch"; echo "TRIAGE variants/pending/$id.patch";; esac
   done
 done
